@@ -471,21 +471,41 @@ def enumerate_rewrites(schema, doc):
             return d2.operations()[oi]
         root = {"query": schema.query, "mutation": schema.mutation, "subscription": schema.subscription}[op.op]
         if op.op == "subscription":
+            def root_field(sels):
+                """The (first) selection of the subscription's root field, wherever it sits below inline fragments."""
+                for sel in sels:
+                    if sel.kind == "field" and sel.alias != "tnOther":
+                        return sel
+                    if sel.kind == "inline":
+                        r = root_field(sel.sels)
+                        if r is not None:
+                            return r
+                return None
+
             def two_roots(d2, oi=oi):
                 o = opi(d2, oi)
-                f = copy.deepcopy(o.sels[0])
+                f = copy.deepcopy(root_field(o.sels))
                 f.alias = "secondRoot"
                 o.sels.append(f)
             add("single-subscription-root", "direct", two_roots)
             def two_roots_inline(d2, oi=oi):
                 o = opi(d2, oi)
-                f = copy.deepcopy(o.sels[0])
+                f = copy.deepcopy(root_field(o.sels))
                 f.alias = "secondRoot"
                 o.sels.append(Inline(None, [], [f]))
             add("single-subscription-root", "through-inline-fragment", two_roots_inline)
+            hosts = [u for u, td in schema.types.items() if td.kind == "UNION" and root in td.members and len(td.members) >= 2]
+            if hosts:
+                def no_root(d2, oi=oi, un=hosts[0], root=root):
+                    # only a fragment on another member of a union the root belongs to: it never applies, zero root fields
+                    o = opi(d2, oi)
+                    other = [m for m in schema.types[un].members if m != root][0]
+                    o.sels = [Inline(un, [], [Inline(other, [], [Field("__typename", "tnOther")])])]
+                    # variables / fragments used by the removed selection would now be unused: keep it in another operation
+                add("single-subscription-root", "zero-root-fields", no_root)
             def two_roots_frag(d2, oi=oi, root=root):
                 o = opi(d2, oi)
-                f = copy.deepcopy(o.sels[0])
+                f = copy.deepcopy(root_field(o.sels))
                 f.alias = "secondRoot"
                 d2.defs.append(Fragment("SecondRoot", root, [f]))
                 o.sels.append(Spread("SecondRoot"))
